@@ -1,7 +1,14 @@
 package main
 
 import (
+	"encoding/json"
+	"net/http/httptest"
+	"net/url"
+	"strconv"
+	"strings"
+
 	"fmt"
+	"github.com/skycoin/skycoin/src/api"
 	"math"
 	"math/big"
 	"sync/atomic"
@@ -149,7 +156,6 @@ func c29(r *engine.Run) {
 	})
 }
 
-
 // c29RealNode pages the address queries of a REAL node: a follower Visor holding a 7-block chain built from the fixture, with
 // pending transactions on top.  For every filter × order × page size the pages 1..N must be consecutive slices of the unpaged
 // result (which C07 compares with the chain), the reported page count must be N, and pages beyond N must be empty.
@@ -259,6 +265,163 @@ func c29RealNode(r *engine.Run, outcomes *engine.Counter) (int, int) {
 				}
 				if fmt.Sprint(concat) != fmt.Sprint(full) {
 					r.Failf("Visor.GetTransactions:paged:pages-do-not-partition-the-list", pageCase{fname, oname, size, 0}, "filter %s order %s size %d: pages 1..%d give %v, unpaged list %v", fname, oname, size, N, concat, full)
+				}
+			}
+		}
+	}
+	he, hn := c29HTTP(r, outcomes, n.V, idA.Addr, idB.Addr)
+	return evals + he, nt + hn
+}
+
+// c29Gateway puts the real Visor behind the two gateway methods the transactions endpoint uses.
+type c29Gateway struct {
+	api.Gatewayer
+	V *visor.Visor
+}
+
+func (g *c29Gateway) GetTransactions(flts []visor.TxFilter, order visor.SortOrder, page *visor.PageIndex) ([]visor.Transaction, uint64, error) {
+	return g.V.GetTransactions(flts, order, page)
+}
+
+func (g *c29Gateway) GetTransactionsWithInputs(flts []visor.TxFilter, order visor.SortOrder, page *visor.PageIndex) ([]visor.Transaction, [][]visor.TransactionInput, uint64, error) {
+	return g.V.GetTransactionsWithInputs(flts, order, page)
+}
+
+type c29HTTPCase struct {
+	Addrs    string   `json:"addrs"`
+	Requests []string `json:"requests_in_order_on_one_handler"`
+}
+
+// c29HTTP: the pages as a CLIENT of one running node gets them - the real handler of GET /api/v2/transactions over the real
+// Visor.  One handler value serves a whole sequence of requests (as one node does); the request alphabet leaves `page` and
+// `limit` out or gives them, and every sequence of up to 2 (thorough 3) requests is run.  Every answer must be the slice the
+// documented meaning of ITS OWN request names (page 1 and 10 per page when left out) of the unpaged list, with the matching
+// page_info - whatever was asked before.
+func c29HTTP(r *engine.Run, outcomes *engine.Counter, v *visor.Visor, a, b cipher.Address) (int, int) {
+	type rq struct{ page, limit string }
+	var alphabet []rq
+	for _, p := range []string{"", "1", "2", "3"} {
+		for _, l := range []string{"", "1", "2", "3"} {
+			alphabet = append(alphabet, rq{p, l})
+		}
+	}
+	depth := r.Pick(2, 3)
+	evals, nt := 0, 0
+	for _, addrs := range []string{"", a.String(), a.String() + "," + b.String()} {
+		var flts []visor.TxFilter
+		if addrs != "" {
+			var as []cipher.Address
+			for _, s := range strings.Split(addrs, ",") {
+				as = append(as, cipher.MustDecodeBase58Address(s))
+			}
+			flts = append(flts, visor.NewAddrsFilter(as))
+		}
+		all, _, err := v.GetTransactions(flts, visor.AscOrder, nil)
+		if err != nil {
+			r.Broken("C29 HTTP part: unpaged list: %v", err)
+			return evals, nt
+		}
+		var full []string
+		for _, t := range all {
+			full = append(full, t.Transaction.Hash().Hex())
+		}
+		L := uint64(len(full))
+		var seqs [][]int
+		var gen func(prefix []int)
+		gen = func(prefix []int) {
+			if len(prefix) > 0 {
+				seqs = append(seqs, append([]int{}, prefix...))
+			}
+			if len(prefix) == depth {
+				return
+			}
+			for i := range alphabet {
+				gen(append(prefix, i))
+			}
+		}
+		gen(nil)
+		for _, seq := range seqs {
+			if len(seq) < depth && depth > 1 {
+				continue // a prefix of a longer sequence: judged there
+			}
+			h := api.VerifTransactionsHandlerV2(&c29Gateway{V: v})
+			var trail []string
+			for _, qi := range seq {
+				q := alphabet[qi]
+				vals := url.Values{}
+				if addrs != "" {
+					vals.Set("addrs", addrs)
+				}
+				if q.page != "" {
+					vals.Set("page", q.page)
+				}
+				if q.limit != "" {
+					vals.Set("limit", q.limit)
+				}
+				trail = append(trail, "page="+q.page+"&limit="+q.limit)
+				req := httptest.NewRequest("GET", "/api/v2/transactions?"+vals.Encode(), nil)
+				rec := httptest.NewRecorder()
+				cs := c29HTTPCase{addrs, append([]string{}, trail...)}
+				if pan, msg := engine.Catch(func() { h.ServeHTTP(rec, req) }); pan {
+					r.Failf("GET /api/v2/transactions:panic", cs, "requests %v: panic: %s", trail, msg)
+					break
+				}
+				evals++
+				var body struct {
+					Data struct {
+						PageInfo struct {
+							TotalPages  uint64 `json:"total_pages"`
+							PageSize    uint64 `json:"page_size"`
+							CurrentPage uint64 `json:"current_page"`
+						} `json:"page_info"`
+						Txns []struct {
+							Txn struct {
+								Hash string `json:"txid"`
+							} `json:"txn"`
+						} `json:"txns"`
+					} `json:"data"`
+				}
+				if rec.Code != 200 || json.Unmarshal(rec.Body.Bytes(), &body) != nil {
+					r.Failf("GET /api/v2/transactions:unexpected-answer", cs, "requests %v: status %d body %.200s", trail, rec.Code, rec.Body.String())
+					break
+				}
+				size, page := uint64(10), uint64(1)
+				if q.limit != "" {
+					size, _ = strconv.ParseUint(q.limit, 10, 64)
+				}
+				if q.page != "" {
+					page, _ = strconv.ParseUint(q.page, 10, 64)
+				}
+				N := L / size
+				if L%size != 0 {
+					N++
+				}
+				var want []string
+				if page <= N {
+					s, e := size*(page-1), size*page
+					if e > L {
+						e = L
+					}
+					want = full[s:e]
+				}
+				var got []string
+				for _, t := range body.Data.Txns {
+					got = append(got, t.Txn.Hash)
+				}
+				first := len(trail) == 1
+				if !first {
+					nt++
+				}
+				outcomes.Add(fmt.Sprintf("http:page-given=%v:limit-given=%v", q.page != "", q.limit != ""))
+				pi := body.Data.PageInfo
+				if fmt.Sprint(got) != fmt.Sprint(want) || pi.TotalPages != N || pi.PageSize != size || pi.CurrentPage != page {
+					sig := "GET /api/v2/transactions:wrong-page"
+					if !first {
+						sig += ":after-earlier-requests"
+					}
+					r.Failf(sig, cs, "one handler, requests in order %v (addrs %q, list of %d): the last answer is page_info{total_pages %d, page_size %d, current_page %d} with %d transactions %v; its own request means page %d of %d with %d per page: %v",
+						trail, addrs, L, pi.TotalPages, pi.PageSize, pi.CurrentPage, len(got), got, page, N, size, want)
+					break
 				}
 			}
 		}
